@@ -251,7 +251,7 @@ fn writers(rep: &mut Report) {
 }
 
 macro_rules! ser_width {
-    ($t:ty, $acc:expr) => {{
+    ($t:ty, $de:ident, $acc:expr) => {{
         let vals: Vec<$t> = vec![<$t>::MIN, <$t>::MIN.wrapping_add(1), 0 as $t, 1 as $t, <$t>::MAX.wrapping_sub(1), <$t>::MAX, (<$t>::MAX / 2), (<$t>::MAX / 2).wrapping_add(1)];
         for v in vals {
             $acc.evals += 1;
@@ -259,6 +259,49 @@ macro_rules! ser_width {
             let label = format!("serialize {} as {}", v, stringify!($t));
             $acc.nontrivial(label.as_bytes());
             let fits = wide >= i64::MIN as i128 && wide <= i64::MAX as i128 && (v as u128 <= i64::MAX as u128 || wide < 0);
+            // the value-level serializers, on the bare value, a newtype around it and Some(it)
+            #[derive(Serialize)]
+            struct Nt<T>(T);
+            let mut value_routes: Vec<(String, Result<String, String>)> = Vec::new();
+            {
+                let mut b = String::new();
+                value_routes.push(("toml::ser::ValueSerializer(bare)".into(), v.serialize(toml::ser::ValueSerializer::new(&mut b)).map(|_| b.clone()).map_err(|e| e.to_string())));
+                let mut b = String::new();
+                value_routes.push(("toml::ser::ValueSerializer(newtype)".into(), Nt(v).serialize(toml::ser::ValueSerializer::new(&mut b)).map(|_| b.clone()).map_err(|e| e.to_string())));
+                let mut b = String::new();
+                value_routes.push(("toml::ser::ValueSerializer(Some)".into(), Some(v).serialize(toml::ser::ValueSerializer::new(&mut b)).map(|_| b.clone()).map_err(|e| e.to_string())));
+                value_routes.push(("toml_edit::ser::ValueSerializer(bare)".into(), v.serialize(toml_edit::ser::ValueSerializer::new()).map(|x| x.to_string()).map_err(|e| e.to_string())));
+                value_routes.push(("toml_edit::ser::ValueSerializer(newtype)".into(), Nt(v).serialize(toml_edit::ser::ValueSerializer::new()).map(|x| x.to_string()).map_err(|e| e.to_string())));
+                value_routes.push(("toml::Value::try_from(bare)".into(), toml::Value::try_from(v).map(|x| x.to_string()).map_err(|e| e.to_string())));
+                value_routes.push(("toml::Value::try_from(Some)".into(), toml::Value::try_from(Some(v)).map(|x| x.to_string()).map_err(|e| e.to_string())));
+            }
+            for (name, out) in &value_routes {
+                match out {
+                    Ok(text) => {
+                        if !fits {
+                            $acc.viol("U-width", label.clone(), None, format!("{}: a value beyond i64 was written as {:?} instead of failing", name, text));
+                        } else if text.trim() != wide.to_string() {
+                            $acc.viol("U-width", label.clone(), None, format!("{}: written as {:?}, expected {}", name, text, wide));
+                        }
+                    }
+                    Err(e) => {
+                        if fits && std::mem::size_of::<$t>() <= 8 {
+                            $acc.viol("U-width", label.clone(), None, format!("{}: a value inside i64 failed: {}", name, e));
+                        }
+                    }
+                }
+            }
+            // toml::Value fed by a foreign serde data source (here: serde's own primitive deserializers)
+            {
+                use serde::de::IntoDeserializer;
+                let d: serde::de::value::$de<serde::de::value::Error> = v.into_deserializer();
+                let got = <toml::Value as serde::Deserialize>::deserialize(d);
+                match got {
+                    Ok(toml::Value::Integer(i)) if fits && i as i128 == wide => {}
+                    Err(_) if !fits || std::mem::size_of::<$t>() > 8 => {}
+                    other => $acc.viol("U-width", label.clone(), None, format!("toml::Value deserialized from a foreign {} {}: {:?}", stringify!($t), v, other.map_err(|e| e.to_string()))),
+                }
+            }
             let outs = [toml::to_string(&S { v }).map_err(|e| e.to_string()), toml_edit::ser::to_string(&S { v }).map_err(|e| e.to_string()), toml::Value::try_from(S { v }).map(|x| x.to_string()).map_err(|e| e.to_string())];
             for (ri, out) in outs.iter().enumerate() {
                 match out {
@@ -311,18 +354,18 @@ macro_rules! de_width {
 fn widths(rep: &mut Report) {
     let t0 = std::time::Instant::now();
     let mut acc = Acc::default();
-    ser_width!(i8, acc);
-    ser_width!(i16, acc);
-    ser_width!(i32, acc);
-    ser_width!(i64, acc);
-    ser_width!(u8, acc);
-    ser_width!(u16, acc);
-    ser_width!(u32, acc);
-    ser_width!(u64, acc);
-    ser_width!(i128, acc);
-    ser_width!(u128, acc);
-    ser_width!(isize, acc);
-    ser_width!(usize, acc);
+    ser_width!(i8, I8Deserializer, acc);
+    ser_width!(i16, I16Deserializer, acc);
+    ser_width!(i32, I32Deserializer, acc);
+    ser_width!(i64, I64Deserializer, acc);
+    ser_width!(u8, U8Deserializer, acc);
+    ser_width!(u16, U16Deserializer, acc);
+    ser_width!(u32, U32Deserializer, acc);
+    ser_width!(u64, U64Deserializer, acc);
+    ser_width!(i128, I128Deserializer, acc);
+    ser_width!(u128, U128Deserializer, acc);
+    ser_width!(isize, IsizeDeserializer, acc);
+    ser_width!(usize, UsizeDeserializer, acc);
     let ints = i64_lattice();
     de_width!(i8, ints, acc);
     de_width!(i16, ints, acc);
